@@ -8,7 +8,8 @@ LEVEL = "model_checking"
 def run(rep, tier):
     wd = common.workdir("C01")
     quick = tier == "quick"
-    progs, n, kept = corepipe.gen_programs(rep, wd, "Core/Gen_C01", "Core/Gen_C01_quick" if quick else "Core/Gen_C01_thorough", "c01", keep=1500 if quick else 40000)
+    progs, n, kept = corepipe.gen_programs(rep, wd, "Core/Gen_C01", "Core/Gen_C01_quick" if quick else "Core/Gen_C01_thorough", "c01", keep=1500 if quick else 40000,
+                                            always=lambda p: p["n"] >= 64)
     events, bad = corepipe.run_and_validate(rep, wd, progs, "c01", shards=8 if quick else 12)
     nb = corepipe.report(rep, events, bad, {"sem"}, "c01")
     steps = [e for e in events if e["ev"] == "step"]
